@@ -1,12 +1,19 @@
 #!/bin/bash
-# Build the framework from files on disk only (offline).
-set -e
+# Build the framework from files on disk only (offline). Every check rebuilds what it needs from /repo's working tree and deals
+# with a tree on which a regenerated definition, a proof module or the harness no longer builds (that is a verdict, not a set-up
+# failure): this script therefore only fails when the tools themselves are missing.
 cd "$(dirname "$0")"
 export GOFLAGS=-mod=mod GOPROXY=off GOSUMDB=off GOTOOLCHAIN=local
+REPO=${VERIF_REPO:-/repo}
 mkdir -p build evidence
-(cd extract && go run . -repo ${VERIF_REPO:-/repo} -out ../lean/Esc/Gen)
-(cd lean && lake build Esc escmodel EscProofs)
-cp ${VERIF_REPO:-/repo}/go.sum build/harness.sum
-sed "s|=> /repo|=> ${VERIF_REPO:-/repo}|" harness/go.mod > build/harness.mod
-(cd harness && go build -modfile ../build/harness.mod -tags verif -o ../build/harness .)
+(cd extract && go run . -repo $REPO -out ../lean/Esc/Gen) || echo "setup: the extractor stopped on this tree (the checks report it)"
+if ! (cd lean && lake build Esc escmodel); then
+  # the model imports the translated validator and key table: fall back to the translation of the pinned tree, as the checks do
+  cp extract/baseline/Validate.lean lean/Esc/Gen/Validate.lean
+  (cd lean && lake build Esc escmodel) || { echo "setup: the model does not build"; exit 1; }
+fi
+(cd lean && lake build EscProofs) || echo "setup: some proof modules do not check against the definitions regenerated from this tree (the checks report it)"
+cp $REPO/go.sum build/harness.sum
+sed "s|=> /repo|=> $REPO|" harness/go.mod > build/harness.mod
+(cd harness && go build -modfile ../build/harness.mod -tags verif -o ../build/harness .) || echo "setup: the harness does not build against this tree (the checks report it)"
 echo setup done
